@@ -184,6 +184,8 @@ def layer_string_templates(ctx, n):
         lead = rng.choice(['', '\n', 'é日\n  ', '<!-- c -->\n\t',
                            # CRLF / CR line endings (HTML mode reads them as LF: positions refer to that text)
                            '<!-- c -->\r\n\t<i>t</i>\r\n  ', 'x\r  ', 'a\r\nb\rc\n ',
+                           # characters that str.splitlines() treats as line boundaries but templates do not: lines end at \n only
+                           'a\x0cb ', 'x\u2028y\n ', 'n\x85m \n', 'p\x1cq\x1d\x1e\n\t', 'v\x0bw', '\u2029\n\x0c ',
                            # expression tokens spanning several lines BEFORE the failing one
                            '<i tal:define="zq (1,\n   2,\n 3)" tal:attributes="a {\'k\':\n 1}">m</i>\n  ',
                            '<?python\nzp = [1,\n  2]\nzr = 3\n?>\n <i tal:content="zp[0] +\n zr">m</i> '])
